@@ -98,14 +98,15 @@ def relate(src, base_o, base_txt, o, txt, stats=None):
     # (a) newline style of this output
     lf, crlf = G.line_endings(txt)
     want = o["nl"] if o["nl"] != "auto" else G.source_newline(src)
-    if (want == "unix" and crlf) or (want == "windows" and lf):
+    emb = G.embed_text(src)           # embed blocks are copied verbatim (line endings and comments included)
+    if not emb and ((want == "unix" and crlf) or (want == "windows" and lf)):
         bad.append(("newline-style-not-applied", "newline_style=%s (%s): %d LF and %d CRLF line endings outside comments/strings"
                     % (o["nl"], want, lf, crlf)))
     s = G.mark_exclusive(bt, base_txt)
     tgt = G.sig(ot)
-    if o["sc"] and any(G.is_comment(t) for t in ot):
-        c = [t for t in ot if G.is_comment(t)][0]
-        bad.append(("strip-comments-leaves-comment", "comment %r in the output with strip_comments = true" % c.t[:60]))
+    left = [t for t in ot if G.is_comment(t) and t.t.replace("\r", "") not in emb.replace("\r", "")]
+    if o["sc"] and left:
+        bad.append(("strip-comments-leaves-comment", "comment %r in the output with strip_comments = true" % left[0].t[:60]))
     if o["ei"]:
         s = drop_comments(s)
         tgt = drop_comments(tgt)
@@ -187,7 +188,7 @@ def judge_design(files, plan, results, stats=None):
     # base output's own newline style
     for fi, (src, bt) in enumerate(zip(files, base[2])):
         lf, crlf = G.line_endings(bt)
-        if crlf:
+        if crlf and not G.embed_text(src):
             bad.append(("newline-style-not-applied", "newline_style=unix: %d CRLF line endings outside comments/strings" % crlf, base_o, fi))
         if stats is not None and exclusive_zero(bt):
             stats["exclusive_range_literal_zero_upper"] = stats.get("exclusive_range_literal_zero_upper", 0) + 1
@@ -267,7 +268,7 @@ def designs_for(tier, seed):
     for nm, fs in srcs:
         ds.append((nm, fs, "repo"))
     single = [(nm, fs) for nm, fs in srcs if len(fs) == 1]
-    nmut = 60 if tier == "quick" else 400
+    nmut = 40 if tier == "quick" else 400
     for i in range(nmut):
         nm, fs = rng.choice(single)
         t = G.add_comments(rng, fs[0], rng.choice([1, 2, 4, 8]))
@@ -275,7 +276,7 @@ def designs_for(tier, seed):
             # (embed blocks are copied verbatim, line endings included: not converted)
             t = G.to_crlf(t) if rng.random() < 0.6 else G.to_mixed(rng, t)
         ds.append(("%s+comments#%d" % (nm, i), [t], "mutated"))
-    ngen = 80 if tier == "quick" else 600
+    ngen = 60 if tier == "quick" else 600
     g = G.Gen(rng)
     for i in range(ngen):
         t = g.design()
